@@ -90,34 +90,41 @@ theorem keyAt_mid (pre k post : Bytes) (e : Item V) (ho : e.off = pre.length) (h
   simp only [this, if_true]
   rw [ho, hs, List.append_assoc, List.drop_left, List.take_left]
 
-/-- when no key is too large the loop appends every key's bytes to data and one item per pair whose
-    (off, sz) read the key back, whose slot is the truncated hash, and whose value is the pair's -/
+/-- the loop appends every key's bytes to data and one item per pair whose (off, sz) read the key
+    back (keys are at most 2^32-1 bytes, so `uint32(len(k))` is exact), whose slot is the truncated
+    hash, and whose value is the pair's -/
 theorem appendLoop_spec (h : Bytes → Nat) (kvs : List (Bytes × V)) (off : Nat) (pre post : Bytes)
     (hkeys : ∀ kv ∈ kvs, kv.1.length ≤ maxU32) (hoff : pre.length = off) :
-    (appendLoop h kvs off).1 = none ∧
-    (appendLoop h kvs off).2.1.length = (kvs.map (·.1.length)).sum ∧
-    (appendLoop h kvs off).2.2.map
-        (fun e => (keyAt (pre ++ (appendLoop h kvs off).2.1 ++ post) e, e.slot, e.v)) =
+    (appendLoop h kvs off).2.map
+        (fun e => (keyAt (pre ++ (appendLoop h kvs off).1 ++ post) e, e.slot, e.v)) =
       kvs.map (fun kv => (some kv.1, h kv.1 % two32, kv.2)) := by
   induction kvs generalizing off pre with
   | nil => simp [appendLoop]
   | cons kv kvs ih =>
-    have hk : ¬ (kv.1.length > maxU32) := by
-      have := hkeys kv List.mem_cons_self; omega
     have hrest : ∀ x ∈ kvs, x.1.length ≤ maxU32 := fun x hx => hkeys x (List.mem_cons_of_mem _ hx)
-    obtain ⟨ih1, ih2, ih3⟩ := ih (off + kv.1.length) (pre ++ kv.1) hrest (by simp [hoff])
-    simp only [appendLoop, hk, if_false]
-    refine ⟨ih1, by simp [ih2], ?_⟩
-    simp only [List.map_cons]
+    have ih3 := ih (off + kv.1.length) (pre ++ kv.1) hrest (by simp [hoff])
+    simp only [appendLoop, List.map_cons]
     congr 1
     · have hsz : kv.1.length % two32 = kv.1.length := Nat.mod_eq_of_lt (by
         have := hkeys kv List.mem_cons_self; unfold maxU32 at this; unfold two32; omega)
-      have := keyAt_mid (V := V) pre kv.1 ((appendLoop h kvs (off + kv.1.length)).2.1 ++ post)
+      have := keyAt_mid (V := V) pre kv.1 ((appendLoop h kvs (off + kv.1.length)).1 ++ post)
         ⟨off, kv.1.length % two32, h kv.1 % two32, kv.2⟩ hoff.symm hsz
       simp only [List.append_assoc] at this ⊢
       rw [this]
     · rw [← ih3]
       simp only [List.append_assoc]
+
+theorem anyKeyTooLarge_false {kk : List Bytes} (hk : ∀ k ∈ kk, k.length ≤ maxU32) :
+    anyKeyTooLarge kk = false := by
+  unfold anyKeyTooLarge
+  rw [List.any_eq_false]
+  intro k hkm; have := hk k hkm; simp; omega
+
+theorem anyKeyTooLarge_true {kk : List Bytes} {k : Bytes} (hm : k ∈ kk) (hk : k.length > maxU32) :
+    anyKeyTooLarge kk = true := by
+  unfold anyKeyTooLarge
+  rw [List.any_eq_true]
+  exact ⟨k, hm, by simpa using hk⟩
 
 /-! ## makeHashtable -/
 
@@ -195,12 +202,14 @@ theorem loadFromSlice_spec (h : Bytes → Nat) (sorter : List (Item V) → List 
     (hn : kvs.length < 1610612736) (hkeys : ∀ kv ∈ kvs, kv.1.length ≤ maxU32) :
     ∃ m', loadFromSlice h sorter m (kvs.map (·.1)) (kvs.map (·.2)) = (.ok (), m') ∧ Loaded h kvs m' := by
   have hzip := zip_fst_snd kvs
-  obtain ⟨h1, _, h3⟩ := appendLoop_spec h kvs 0 [] [] hkeys rfl
+  have h3 := appendLoop_spec h kvs 0 [] [] hkeys rfl
+  have hbig : anyKeyTooLarge (kvs.map (·.1)) = false := anyKeyTooLarge_false (by
+    intro k hk; obtain ⟨kv, hkv, rfl⟩ := List.mem_map.mp hk; exact hkeys kv hkv)
   unfold loadFromSlice
   have hl : ¬ ((kvs.map (·.1)).length ≠ (kvs.map (·.2)).length) := by simp
-  simp only [hl, if_false, hzip, h1]
+  simp only [hl, if_false, hzip, hbig, Bool.false_eq_true]
   obtain ⟨m', hm, _, hL⟩ := makeHashtable_spec h sorter hsort
-    ⟨(appendLoop h kvs 0).2.1, (appendLoop h kvs 0).2.2, #[], m.ht ++ m.spare⟩ kvs hn
+    ⟨(appendLoop h kvs 0).1, (appendLoop h kvs 0).2, #[], m.ht ++ m.spare⟩ kvs hn
     (by simpa using h3)
   exact ⟨m', hm, hL⟩
 
